@@ -230,6 +230,78 @@ def _c04_3_case(preemptions, rollback_one=False):
     return case
 
 
+def _c04_3_refresh_case(preemptions):
+    """both inbound branches have completed; two of the pending
+    'refresh join state' jobs are picked up by two engine processes"""
+    def case():
+        from vt.world import World
+        from vt import actors as A
+        from mistral_lib import actions as ml
+        from mistral import context
+        w = World([shapes.FORK_JOIN], multi_process=True)
+        # the 'is a refresh job already scheduled?' check of one process
+        # does not see the job the other process is about to insert
+        w.job_dedupe = False
+        with w:
+            wid = w.start('wf')
+
+            def not_refresh(events):
+                for e in events:
+                    if e.kind == 'job' and 'refresh' in e.label:
+                        continue
+                    return e
+                return None
+            w.run(chooser=not_refresh,
+                  result_of=lambda ev: ml.Result(data='ok'))
+            jobs = [e for e in w.events if e.kind == 'job'
+                    and 'refresh' in e.label]
+            ts = {t['name']: t['state'] for t in w.tasks(wid)}
+            assume(len(jobs) >= 2 and ts.get('b') == 'SUCCESS'
+                   and ts.get('c') == 'SUCCESS' and ts.get('j') == 'WAITING')
+            reach('two-jobs-pending')
+            j1, j2 = jobs[0], jobs[1]
+            w.take(j1)
+            w.take(j2)
+            acts = A.Actors(max_steps=600, preemptions=preemptions)
+            A.attach(w.db, acts)
+            ctx0 = context.ctx()
+
+            def proc(ev):
+                def run():
+                    context.set_ctx(ev.ctx or ctx0)
+                    w.fire(ev.payload)
+                return run
+            acts.spawn('S1', proc(j1))
+            acts.spawn('S2', proc(j2))
+            acts.run()
+            w.db.on_op = None
+            w.db.on_block = None
+            note('schedule', acts.schedule_str())
+            sig = 'C04.3r:'
+            reach('raced')
+            if acts.used_preemptions:
+                reach('interleaved')
+            from mistral import exceptions as exc
+            bad = [(m, repr(e)[:200]) for m, e in w.errors
+                   if not isinstance(e, exc.MistralException)]
+            check(not bad, 'refresh-job-failed',
+                  {'signature': sig + 'error', 'errors': bad})
+            check(not w.rows('NamedLock'), 'named-lock-left-behind',
+                  {'signature': sig + 'lock-left'})
+            w.run(result_of=lambda ev: ml.Result(data='ok'))
+            j = w.task('j', wid)
+            check(w.wf_ex(wid)['state'] == 'SUCCESS' and j is not None
+                  and j['state'] == 'SUCCESS',
+                  'run-not-finished', {'signature': sig + 'stuck',
+                                       'summary': w.summary()})
+            if j is not None:
+                check(len(w.actions(j['id'])) == 1, 'join-ran-twice',
+                      {'signature': sig + 'join-twice',
+                       'n': len(w.actions(j['id'])),
+                       'schedule': acts.schedule_str()})
+    return case
+
+
 @obligation(
     'C04.3', engine='symx-actors+world(minidb)',
     functions=['mistral.engine.tasks:Task.defer',
@@ -238,8 +310,12 @@ def _c04_3_case(preemptions, rollback_one=False):
                'mistral.db.v2.sqlalchemy.api:delete_named_lock',
                'mistral.db.v2.sqlalchemy.api:create_task_execution',
                'mistral.engine.default_engine:DefaultEngine.on_action_complete',
-               'mistral.engine.task_handler:_check_affected_tasks'],
-    bounds={'quick': 'fork/join; the two inbound branches complete in two '
+               'mistral.engine.task_handler:_check_affected_tasks',
+               'mistral.engine.task_handler:_refresh_task_state',
+               'mistral.db.v2.sqlalchemy.api:refresh'],
+    bounds={'quick': 'fork/join; the two inbound branches complete (and, '
+                     'second case, two pending refresh jobs of the join '
+                     'run) in two '
                      'engine processes whose DB statements interleave with '
                      '<= 2 context switches (every statement is a possible '
                      'switch point; READ COMMITTED overlay, unique-index and '
@@ -252,8 +328,12 @@ def _c04_3_case(preemptions, rollback_one=False):
 def c04_3(ctx):
     """exactly one task execution row for the join survives, both branches
     are recorded as routed to it, no named lock is left, and the join then
-    runs exactly once"""
+    runs exactly once - also when two of its 'refresh state' jobs run in two
+    engine processes at the same time"""
     boot()
     yield Case('two-branches', _c04_3_case(ctx.pick(2, 3)),
                needed=['raced', 'interleaved'], shard_depth=10, procs=14,
                max_paths=1000000)
+    yield Case('two-refresh-jobs', _c04_3_refresh_case(ctx.pick(2, 3)),
+               needed=['two-jobs-pending', 'raced', 'interleaved'],
+               shard_depth=8, procs=14, max_paths=1000000)
